@@ -1,6 +1,6 @@
 """Per-property texts for MANIFEST.json."""
 
-HOOK_COMMITS = ["00e67b0", "4a80b6f", "07e0e43", "3d6248f", "77bcbc9", "e49b8f8"]
+HOOK_COMMITS = ["00e67b0", "4a80b6f", "07e0e43", "3d6248f", "77bcbc9", "e49b8f8", "dce2a65"]
 
 NOT_APPLICABLE = {}
 
